@@ -10,6 +10,7 @@ import (
 	"fmt"
 	"unsafe"
 
+	"github.com/Yiling-J/theine-go/internal/hasher"
 	simrt "verifsim/simrt"
 )
 
@@ -343,3 +344,110 @@ func ClockStaleness[K comparable, V any](s *Store[K, V]) int64 {
 }
 
 const simEpoch = int64(1735689600) * 1e9
+
+// WBPolicySim drives the real TinyLfu policy alone (C07): every step of the
+// property's quantifier - insert, access, cost update, remove, forced sample
+// counts, arbitrary sketch contents - on any capacity.
+type WBPolicySim struct {
+	p       *TinyLfu[int, int64]
+	h       *hasher.Hasher[int]
+	entries map[int]*Entry[int, int64]
+	Evicted []int // keys handed to the removal callback, in order
+}
+
+//go:norace
+func NewWBPolicySim(capacity uint) *WBPolicySim {
+	h := hasher.NewHasher[int](nil)
+	s := &WBPolicySim{p: NewTinyLfu[int, int64](capacity, h), h: h, entries: map[int]*Entry[int, int64]{}}
+	s.p.removeCallback = func(e *Entry[int, int64]) {
+		// what Store.removeEntry does on the policy side
+		e.flag.SetRemoved(true)
+		if e.meta.prev != nil {
+			s.p.Remove(e, false)
+		}
+		s.Evicted = append(s.Evicted, e.key)
+		delete(s.entries, e.key)
+	}
+	return s
+}
+
+// Set inserts key with the given cost (as sinkWrite does for a NEW event) or, if
+// the key is tracked, changes its cost (UPDATE event).
+//
+//go:norace
+func (s *WBPolicySim) Set(key int, cost int64) {
+	if e, ok := s.entries[key]; ok {
+		delta := cost - e.policyWeight
+		e.weight.Store(cost)
+		e.policyWeight += delta
+		if e.meta.prev != nil && delta != 0 {
+			s.p.UpdateCost(e, delta)
+		}
+		return
+	}
+	e := &Entry[int, int64]{key: key}
+	e.weight.Store(cost)
+	s.entries[key] = e
+	s.p.sketch.Add(s.h.Hash(key))
+	e.policyWeight += cost
+	s.p.Set(e)
+}
+
+//go:norace
+func (s *WBPolicySim) Access(key int) {
+	e := s.entries[key]
+	if e == nil {
+		return
+	}
+	s.p.Access(ReadBufItem[int, int64]{entry: e, hash: s.h.Hash(key)})
+}
+
+//go:norace
+func (s *WBPolicySim) Remove(key int) {
+	e := s.entries[key]
+	if e == nil {
+		return
+	}
+	if e.meta.prev != nil {
+		s.p.Remove(e, false)
+	}
+	delete(s.entries, key)
+}
+
+// ForceSample sets the hill climber's sample counters (arbitrary hit/miss sample counts).
+//
+//go:norace
+func (s *WBPolicySim) ForceSample(hits, misses uint64) {
+	s.p.hitsInSample, s.p.missesInSample = hits, misses
+}
+
+// AddFrequency adds n to the sketch counters of key (arbitrary sketch contents).
+//
+//go:norace
+func (s *WBPolicySim) AddFrequency(key int, n int) { s.p.sketch.Addn(s.h.Hash(key), n) }
+
+//go:norace
+func (s *WBPolicySim) SampleSize() uint { return s.p.sketch.SampleSize }
+
+// Snapshot returns the policy part of a store snapshot (regions, totals) with
+// Resident = the tracked entries.
+//
+//go:norace
+func (s *WBPolicySim) Snapshot() *WBSnapshot[int, int64] {
+	sn := &WBSnapshot[int, int64]{}
+	for _, k := range simrt.SortedKeys(s.entries) {
+		sn.Resident = append(sn.Resident, wbEntry(s.entries[k]))
+	}
+	limit := len(s.entries) + 1000
+	sn.Regions[0] = wbRegion("window", s.p.window, limit)
+	sn.Regions[1] = wbRegion("probation", s.p.slru.probation, limit)
+	sn.Regions[2] = wbRegion("protected", s.p.slru.protected, limit)
+	sn.WeightedSize = s.p.weightedSize
+	sn.Capacity = s.p.capacity
+	sn.SlruMax = s.p.slru.maxsize
+	sn.HitsInSample = s.p.hitsInSample
+	sn.MissInSample = s.p.missesInSample
+	sn.Amount = s.p.amount
+	sn.Step = s.p.step
+	return sn
+}
